@@ -7,6 +7,7 @@ import Bita.Spec.Resume
 import Bita.Proofs.Http
 import Bita.Proofs.IoReader
 import Bita.Proofs.ReaderEnv
+import Bita.Proofs.Reuse
 
 namespace Bita.Props.C08
 open Bita Bita.Spec
@@ -76,6 +77,13 @@ theorem read_at_exact (eh : HttpEnv) (ei : IoEnv) :
     (∀ off size b, eh.readAt off size = some b → b.length = size) ∧
     (∀ off size b, ei.readAt off size = some b → b.length = size) :=
   ⟨Proofs.http_env_exact eh, Proofs.io_env_exact ei⟩
+
+/-- The single-read path over HTTP (`read_at`): every request is for exactly the asked range (a retry
+starts from scratch) and there are at most `retry + 1` of them. -/
+theorem http_read_at_requests (serve : Nat → Nat → Bytes) (retry offset size : Nat) (script : List Resp) :
+    (∀ q ∈ (httpReadAt serve retry offset size script).2, q = (offset, size)) ∧
+    (httpReadAt serve retry offset size script).2.length ≤ retry + 1 :=
+  Proofs.http_read_at_requests serve retry offset size script
 
 /-! Non-vacuity: a run of two chunks failing three times (budget 3), resumed at +3 and +5. -/
 example :
